@@ -95,9 +95,9 @@ def expand_chunk(args):
     return children, proved, st
 
 
-def bfs(alpha_name: str, g: bytes, c: bytes, depth: int, caps, agg, seed_name: str):
+def bfs(alpha_name: str, g: bytes, c: bytes, depth: int, caps, agg, seed_name: str, prefix: bytes = b''):
     seen = set()
-    frontier = [b'']
+    frontier = [prefix]
     proved_all: dict[str, str] = {}  # theorem -> a program that reaches a state containing it (approx: frontier prog)
     levels = []
     for lvl in range(1, depth + 1):
@@ -266,13 +266,34 @@ def closure_apply(args):
     return out
 
 
-def closure(chk, height: int, max_nodes: int, npool: int, max_apps: int, agg):
+def derived_seed():
+    """proof-phase prefix that derives phi0->phi0 and bot->phi0 with the toolkit's own (real) proofs and saves
+    them: a non-initial start state holding derived theorems (every proved term is still judged by the oracle)"""
+    from . import pyrun
+    from proof_generation.proofs.propositional import Propositional
+    prop = Propositional()
+    prefix = b''
+    for th in (prop.imp_refl(), prop.bot_elim()):
+        files = pyrun.serialize_real(pyrun.module_for(th), False)
+        p = files['ml-proof']
+        assert p[-1] == 30
+        if prefix:
+            prefix += bytes([27])          # Pop the previous theorem
+        prefix += p[:-1] + bytes([28])     # Save instead of Publish
+    pyrun.cleanup()
+    return prefix
+
+
+def closure(chk, height: int, max_nodes: int, npool: int, max_apps: int, agg, seed_theorems=()):
     pool = universe.META_POOL[:npool]
+    pool = pool + tuple(t for t in universe.META_POOL[-3:] if t not in pool)
     known: dict[str, str] = {}
+    for t in seed_theorems:
+        known[t] = {'how': 'derived seed (toolkit proof of phi0->phi0 / bot->phi0 run on the real checker)'}
     # level 0: axiom schemas (all opcodes 12..25 are tried: an implemented one yields a theorem)
     apps = [('axiom', op) for op in range(12, 26) if op not in (21, 22, 24)]
     res = closure_apply(apps)
-    new = []
+    new = list(known)
     for a, r in zip(apps, res):
         if r is not None and r not in known:
             known[r] = {'how': f'axiom opcode {a[1]}'}
@@ -410,6 +431,15 @@ def main(argv=None) -> int:
     plan = [('full', b'', b'', 4 if not thorough else 5, 'empty'),
             ('rule', b'', b'', 6 if not thorough else 7, 'empty'),
             ('full', g1, c1, 3 if not thorough else 4, 'valid-theory')]
+    prefix = derived_seed()
+    h = common.Harness()
+    d = h.run(b'', b'', prefix)
+    assert d is not None, 'derived seed rejected by the checker'
+    seed_theorems = [e[2:] for e in d.split('|')[1].split(';') if e.startswith('T:')]
+    found, sample = bfs('full', b'', b'', 3 if not thorough else 4, (4, 5, 14), agg, 'derived-theorems', prefix)
+    for t, w in found.items():
+        theorems.setdefault(t, w)
+    chk.sample({'seed': 'derived-theorems', 'program_hex': sample.hex()[-40:], 'seed_theorems': seed_theorems})
     for alpha, g, c, depth, name in plan:
         found, sample = bfs(alpha, g, c, depth, caps, agg, name)
         for t, w in found.items():
@@ -417,7 +447,7 @@ def main(argv=None) -> int:
         chk.sample({'seed': name, 'alphabet': alpha, 'program_hex': sample.hex()})
     agg['bfs_distinct_theorems'] = len(theorems)
     known = closure(chk, 2 if not thorough else 3, 11 if not thorough else 13, 10 if not thorough else 16,
-                    400000 if not thorough else 4000000, agg)
+                    400000 if not thorough else 4000000, agg, seed_theorems)
     for t, w in known.items():
         theorems.setdefault(t, w)
     agg['distinct_theorems'] = len(theorems)
